@@ -60,8 +60,11 @@ def make_model_hashes():
         def executemany(self, query, items):
             if "INSERT" not in query:
                 raise HarnessGap(f"unmodelled SQL: {query}")
-            for k, v in items:
-                self.table[k] = v
+            items = list(items)
+            # one transaction = one crash point: all rows or none
+            if CUR is None or CUR.inner._mut("state-commit", len(items)):
+                for k, v in items:
+                    self.table[k] = v
 
     class ModelHashes(HashesCache):
         def __init__(self):  # no diskcache / sqlite
@@ -96,7 +99,8 @@ def make_model_hashes():
             yield
 
         def __setitem__(self, key, value):
-            self.table[key] = value
+            if CUR is None or CUR.inner._mut("state-commit", 1):
+                self.table[key] = value
 
         def close(self):
             pass
